@@ -42,7 +42,7 @@ def plan(tier, seed):
     steps = 150 if not big else 2500
     for ens in ("canonical", "hamiltonian", "isobaric", "isotension", "isotension-hydro", "grand", "grand-mol"):
         for j in range(2 if ens != "hamiltonian" else 1):
-            specs.append({"name": f"{ens}{j}", "ens": ens, "j": j, "seed": seed, "sims": 6 if not big else 10, "steps": steps if ens != "hamiltonian" else steps // 3})
+            specs.append({"name": f"{ens}{j}", "ens": ens, "j": j, "seed": seed, "sims": 12 if not big else 14, "steps": steps if ens != "hamiltonian" else steps // 3})
     specs.append({"name": "strain", "ens": "strain", "j": 0, "seed": seed, "sims": 200 if not big else 3000, "steps": 0})
     return specs
 
